@@ -49,6 +49,9 @@ func (m *Mutex) Unlock() {
 	if UnlockHook != nil {
 		UnlockHook(m)
 	}
+	// a thread can be preempted right after releasing a mutex, before its next (possibly unsynchronised)
+	// action such as handing a reply to the connection
+	vrt.R.Point(vrt.KMutex)
 }
 
 // Held is for harness inspection.
